@@ -190,7 +190,9 @@ func (d *Data) putChunk(op *putOperation, wg *sync.WaitGroup, putbuffer storage.
 		dvid.Errorf("error creating compressed block from label array at %s", op.subvol)
 		return
 	}
-	go d.updateBlockMaxLabel(op.version, curBlock)
+	// The max label is raised (and persisted) before the block that carries the labels is
+	// stored, so that labels handed out later - also after a crash - exceed every stored label.
+	d.updateBlockMaxLabel(op.version, curBlock)
 
 	blockData, _ := curBlock.MarshalBinary()
 	serialization, err := dvid.SerializeData(blockData, d.Compression(), d.Checksum())
@@ -345,7 +347,7 @@ func (d *Data) writeBlocks(v dvid.VersionID, b storage.TKeyValues, wg1, wg2 *syn
 				dvid.Errorf("unable to compute dvid block compression in %q: %v\n", d.DataName(), err)
 				return
 			}
-			go d.updateBlockMaxLabel(v, lblBlock)
+			d.updateBlockMaxLabel(v, lblBlock) // before the block is stored (see putChunk)
 
 			compressed, _ := lblBlock.MarshalBinary()
 			serialization, err := dvid.SerializeData(compressed, d.Compression(), d.Checksum())
@@ -504,7 +506,7 @@ func (d *Data) storeBlocks(ctx *datastore.VersionedCtx, r io.ReadCloser, scale u
 			if mod := d.blockChangesExtents(&extents, bx, by, bz); mod {
 				extentsChanged = true
 			}
-			go d.updateBlockMaxLabel(ctx.VersionID(), block)
+			d.updateBlockMaxLabel(ctx.VersionID(), block) // before the block is stored (see putChunk)
 		}
 		serialization, err := dvid.SerializePrecompressedData(compressed, d.Compression(), d.Checksum())
 		if err != nil {
